@@ -948,6 +948,1055 @@ fn cmd_case_literal(id: usize, ops: &[Op]) -> Option<String> {
     }))
 }
 
+// ------------------------------------------------------------------ further views of a stored path
+// Path-buffer builders (plain / with attributes, inherent methods and the PathBuilder / Build traits), buffers holding
+// several paths with different attribute counts, buffer slices and iterators in both directions, FromIterator, clear;
+// IdPolygon and the polygon position store; PointEvents of a command buffer over external storage of several point types;
+// FromPolyline; Event::{is_edge, from, to}; PathSlice::{reversed, is_empty}, IntoIterator for &Path / PathSlice / &PathSlice,
+// IterWithAttributes::points, Path::with_attributes, BuilderImpl::extend_from_paths.
+
+use lyon_path::path_buffer::{self, PathBuffer};
+use lyon_path::{AttributeStore, EventId, PathSlice, PositionStore};
+
+/// one entry of a path-buffer case: a program and its attribute count
+#[derive(Clone)]
+struct Prog {
+    n: usize,
+    ops: Vec<Op>,
+}
+
+/// moves a program away from the others of the same buffer, so that an entry answering with another entry's data shows
+fn shift_prog(ops: &mut [Op], d: f32, da: f32) {
+    fn sp(p: &mut Point, d: f32) {
+        p.x += d;
+        p.y += d;
+    }
+    for o in ops.iter_mut() {
+        match o {
+            Op::Begin(p, a) | Op::Line(p, a) => {
+                sp(p, d);
+                a.iter_mut().for_each(|v| *v += da);
+            }
+            Op::Quad(c, p, a) => {
+                sp(c, d);
+                sp(p, d);
+                a.iter_mut().for_each(|v| *v += da);
+            }
+            Op::Cubic(c1, c2, p, a) => {
+                sp(c1, d);
+                sp(c2, d);
+                sp(p, d);
+                a.iter_mut().for_each(|v| *v += da);
+            }
+            Op::End(_) => {}
+        }
+    }
+}
+
+/// (endpoints, control points) a program stores
+fn point_counts(ops: &[Op]) -> (usize, usize) {
+    let (mut ne, mut nc) = (0, 0);
+    for o in ops {
+        match o {
+            Op::Begin(..) | Op::Line(..) => ne += 1,
+            Op::Quad(..) => {
+                ne += 1;
+                nc += 1
+            }
+            Op::Cubic(..) => {
+                ne += 1;
+                nc += 2
+            }
+            Op::End(_) => {}
+        }
+    }
+    (ne, nc)
+}
+
+/// The property's well-formedness: each sub-path is Begin, edges, End; each edge starts where the previous ended;
+/// End names the last point reached and the sub-path's first point.
+fn well_formed<E: PartialEq + Clone, C>(evs: &[Event<E, C>]) -> bool {
+    let mut open: Option<(E, E)> = None; // (first, current)
+    for e in evs {
+        open = match (e, open) {
+            (Event::Begin { at }, None) => Some((at.clone(), at.clone())),
+            (Event::Line { from, to }, Some((f, c))) if *from == c => Some((f, to.clone())),
+            (Event::Quadratic { from, to, .. }, Some((f, c))) if *from == c => Some((f, to.clone())),
+            (Event::Cubic { from, to, .. }, Some((f, c))) if *from == c => Some((f, to.clone())),
+            (Event::End { last, first, .. }, Some((f, c))) if *last == c && *first == f => None,
+            _ => return false,
+        };
+    }
+    open.is_none()
+}
+
+fn resolve_with(e: &IdEvent, ep: &dyn Fn(EndpointId) -> Ep, cp: &dyn Fn(ControlPointId) -> Point) -> AEvent {
+    match *e {
+        Event::Begin { at } => Event::Begin { at: ep(at) },
+        Event::Line { from, to } => Event::Line { from: ep(from), to: ep(to) },
+        Event::Quadratic { from, ctrl, to } => Event::Quadratic { from: ep(from), ctrl: cp(ctrl), to: ep(to) },
+        Event::Cubic { from, ctrl1, ctrl2, to } => Event::Cubic { from: ep(from), ctrl1: cp(ctrl1), ctrl2: cp(ctrl2), to: ep(to) },
+        Event::End { last, first, close } => Event::End { last: ep(last), first: ep(first), close },
+    }
+}
+
+/// what every view of the path built from a program must say (computed from the program; the id events are those of the
+/// stand-alone Path built from it)
+struct Expected {
+    n: usize,
+    spec: Vec<AEvent>,
+    spec_pos: Vec<PathEvent>,
+    rev: Vec<AEvent>,
+    path_ids: Vec<IdEvent>,
+    first: Option<Ep>,
+    /// per builder call: the endpoint it adds
+    op_endpoints: Vec<Option<Ep>>,
+}
+
+fn expected_of(p: &Prog) -> Expected {
+    let spec = spec_events(&p.ops);
+    let mut ids = Vec::new();
+    let path = build_path(p.n, &p.ops, &mut ids);
+    Expected {
+        n: p.n,
+        spec_pos: spec.iter().map(strip).collect(),
+        rev: spec_reversed(&p.ops),
+        path_ids: path.id_iter().collect(),
+        first: spec.first().map(|e| match e {
+            Event::Begin { at } => at.clone(),
+            _ => unreachable!(),
+        }),
+        op_endpoints: p
+            .ops
+            .iter()
+            .map(|o| match o {
+                Op::Begin(q, a) | Op::Line(q, a) | Op::Quad(_, q, a) | Op::Cubic(_, _, q, a) => Some((*q, a.clone())),
+                Op::End(_) => None,
+            })
+            .collect(),
+        spec,
+    }
+}
+
+fn attr_events(sl: &PathSlice) -> Vec<AEvent> {
+    sl.iter_with_attributes().map(own).collect()
+}
+
+/// the short comparison used for the entries handed out by iterators: events with attributes and raw id events
+fn same_entry(sl: &PathSlice, exp: &Expected) -> bool {
+    attr_events(sl) == exp.spec && sl.id_iter().collect::<Vec<IdEvent>>() == exp.path_ids
+}
+
+/// every read of a PathSlice (of a stand-alone Path or of a buffer entry) against the program
+fn entry_check(sl: &PathSlice, exp: &Expected, ids: Option<&[u32]>, via: &str, bad: &mut Vec<String>) {
+    let mut say = |m: &str| {
+        let s = format!("{}: {}", via, m);
+        if !bad.contains(&s) {
+            bad.push(s)
+        }
+    };
+    if attr_events(sl) != exp.spec {
+        say("iter_with_attributes differs from the program's events");
+    }
+    if !well_formed(&attr_events(sl)) {
+        say("iter_with_attributes is not a well-formed sequence");
+    }
+    if sl.iter().collect::<Vec<PathEvent>>() != exp.spec_pos {
+        say("iter differs from the program's events");
+    }
+    let idev: Vec<IdEvent> = sl.id_iter().collect();
+    if idev != exp.path_ids {
+        say("id_iter differs from the id events of the stand-alone Path built from the same program");
+    }
+    if !well_formed(&idev) {
+        say("id_iter is not a well-formed sequence");
+    }
+    let by_index: Vec<AEvent> = idev.iter().map(|e| resolve_with(e, &|i| (sl[i], sl.attributes(i).to_vec()), &|c| sl[c])).collect();
+    if by_index != exp.spec {
+        say("id events resolved through Index / attributes() differ from the program's events");
+    }
+    let by_store: Vec<AEvent> = idev
+        .iter()
+        .map(|e| resolve_with(e, &|i| (PositionStore::get_endpoint(sl, i), AttributeStore::get(sl, i).to_vec()), &|c| PositionStore::get_control_point(sl, c)))
+        .collect();
+    if by_store != exp.spec {
+        say("id events resolved through PositionStore / AttributeStore differ from the program's events");
+    }
+    if AttributeStore::num_attributes(sl) != exp.n {
+        say("num_attributes is not the builder's attribute count");
+    }
+    if sl.is_empty() != exp.spec.is_empty() {
+        say("is_empty disagrees with the path having no event");
+    }
+    if sl.first_endpoint().map(|(q, a)| (q, a.to_vec())) != exp.first {
+        say("first_endpoint is not the first Begin");
+    }
+    if let Some(ids) = ids {
+        if ids.len() != exp.op_endpoints.len() {
+            say("internal: id list length");
+        }
+        for (k, (want, id)) in exp.op_endpoints.iter().zip(ids.iter()).enumerate() {
+            if let Some(w) = want {
+                let id = EndpointId(*id);
+                let inside = idev.iter().any(|e| match *e {
+                    Event::Begin { at } => at == id,
+                    Event::Line { to, .. } | Event::Quadratic { to, .. } | Event::Cubic { to, .. } => to == id,
+                    Event::End { .. } => false,
+                });
+                if !inside {
+                    say(&format!("the id returned by builder call {} is not an endpoint id of this path", k));
+                } else if (sl[id], sl.attributes(id).to_vec()) != *w {
+                    say(&format!("the id returned by builder call {} does not resolve to the endpoint it added", k));
+                }
+            }
+        }
+    }
+    // reversed, through the slice
+    let rev: Vec<AEvent> = sl.reversed().with_attributes().map(own).collect();
+    if rev != exp.rev {
+        say("PathSlice::reversed().with_attributes() differs from the reversed program");
+    }
+    let rev_pos: Vec<PathEvent> = sl.reversed().collect();
+    if rev_pos != exp.rev.iter().map(strip).collect::<Vec<_>>() {
+        say("PathSlice::reversed() differs from the reversed program");
+    }
+    let twice: Vec<AEvent> = {
+        let r = sl.reversed().with_attributes().into_path();
+        let rr = r.as_slice().reversed().with_attributes().into_path();
+        if AttributeStore::num_attributes(&rr) != exp.n {
+            say("reversing twice changes the attribute count");
+        }
+        rr.iter_with_attributes().map(own).collect()
+    };
+    if twice != exp.spec {
+        say("reversing the slice twice does not give the original");
+    }
+    // IntoIterator for &PathSlice and for PathSlice
+    let mut by_ref = Vec::new();
+    for e in sl {
+        by_ref.push(e);
+    }
+    let mut by_val = Vec::new();
+    for e in *sl {
+        by_val.push(e);
+    }
+    if by_ref != exp.spec_pos || by_val != exp.spec_pos {
+        say("a for loop over the slice (IntoIterator) differs from the program's events");
+    }
+    // IterWithAttributes::points(): from the start and after j events
+    if sl.iter_with_attributes().points().collect::<Vec<PathEvent>>() != exp.spec_pos {
+        say("iter_with_attributes().points() differs from the program's events");
+    }
+    for j in [1usize, 2, exp.spec_pos.len() / 2, exp.spec_pos.len().saturating_sub(1)] {
+        if j <= exp.spec_pos.len() {
+            let mut it = sl.iter_with_attributes();
+            for _ in 0..j {
+                it.next();
+            }
+            if it.points().collect::<Vec<PathEvent>>() != exp.spec_pos[j..] {
+                say("iter_with_attributes() advanced then .points() does not continue with the remaining events");
+                break;
+            }
+        }
+    }
+    let _ = format!("{:?}", sl);
+}
+
+fn replay_trait<B: lyon_path::traits::PathBuilder>(b: &mut B, ops: &[Op], ids: &mut Vec<u32>) {
+    for o in ops {
+        match o {
+            Op::Begin(p, a) => ids.push(b.begin(*p, a).0),
+            Op::Line(p, a) => ids.push(b.line_to(*p, a).0),
+            Op::Quad(c, p, a) => ids.push(b.quadratic_bezier_to(*c, *p, a).0),
+            Op::Cubic(c1, c2, p, a) => ids.push(b.cubic_bezier_to(*c1, *c2, *p, a).0),
+            Op::End(c) => {
+                b.end(*c);
+                ids.push(0)
+            }
+        }
+    }
+}
+
+fn replay_buf_plain(b: &mut path_buffer::Builder, ops: &[Op], ids: &mut Vec<u32>) {
+    for o in ops {
+        match o {
+            Op::Begin(p, _) => ids.push(b.begin(*p).0),
+            Op::Line(p, _) => ids.push(b.line_to(*p).0),
+            Op::Quad(c, p, _) => ids.push(b.quadratic_bezier_to(*c, *p).0),
+            Op::Cubic(c1, c2, p, _) => ids.push(b.cubic_bezier_to(*c1, *c2, *p).0),
+            Op::End(c) => {
+                b.end(*c);
+                ids.push(0)
+            }
+        }
+    }
+}
+
+fn replay_buf_attr(b: &mut path_buffer::BuilderWithAttributes, ops: &[Op], ids: &mut Vec<u32>) {
+    for o in ops {
+        match o {
+            Op::Begin(p, a) => ids.push(b.begin(*p, a).0),
+            Op::Line(p, a) => ids.push(b.line_to(*p, a).0),
+            Op::Quad(c, p, a) => ids.push(b.quadratic_bezier_to(*c, *p, a).0),
+            Op::Cubic(c1, c2, p, a) => ids.push(b.cubic_bezier_to(*c1, *c2, *p, a).0),
+            Op::End(c) => {
+                b.end(*c);
+                ids.push(0)
+            }
+        }
+    }
+}
+
+/// appends the programs to the buffer, each through a randomly chosen builder route; returns (index, endpoint ids) per program
+fn fill_buffer(buf: &mut PathBuffer, progs: &[Prog], rng: &mut Rng, bad: &mut Vec<String>) -> Vec<(usize, Vec<u32>)> {
+    use lyon_path::traits::{Build, PathBuilder};
+    let mut out = Vec::new();
+    for p in progs {
+        if rng.chance(1, 4) {
+            buf.reserve(rng.below(30) as usize, rng.below(30) as usize, rng.below(4) as usize);
+        }
+        let mut ids = Vec::new();
+        let route = if p.n == 0 { rng.below(5) } else { 2 + rng.below(3) };
+        let (ne, nc) = point_counts(&p.ops);
+        let reserve = rng.chance(1, 2);
+        let idx = match route {
+            0 => {
+                let mut b = buf.builder();
+                if reserve {
+                    b.reserve(ne, nc);
+                }
+                replay_buf_plain(&mut b, &p.ops, &mut ids);
+                b.build()
+            }
+            1 => {
+                let mut b = buf.builder();
+                if PathBuilder::num_attributes(&b) != 0 {
+                    bad.push("path_buffer::Builder: PathBuilder::num_attributes is not 0".to_string());
+                }
+                if reserve {
+                    PathBuilder::reserve(&mut b, ne, nc);
+                }
+                replay_trait(&mut b, &p.ops, &mut ids);
+                Build::build(b)
+            }
+            2 => {
+                let mut b = path_buffer::BuilderWithAttributes::new(&mut *buf, p.n);
+                if reserve {
+                    b.reserve(ne, nc);
+                }
+                replay_buf_attr(&mut b, &p.ops, &mut ids);
+                b.build()
+            }
+            3 => {
+                let mut b = path_buffer::BuilderWithAttributes::new(&mut *buf, p.n);
+                if PathBuilder::num_attributes(&b) != p.n {
+                    bad.push("path_buffer::BuilderWithAttributes: PathBuilder::num_attributes is not the count it was created with".to_string());
+                }
+                if reserve {
+                    PathBuilder::reserve(&mut b, ne, nc);
+                }
+                replay_trait(&mut b, &p.ops, &mut ids);
+                Build::build(b)
+            }
+            _ => {
+                let mut b = buf.builder().with_attributes(p.n);
+                if reserve {
+                    b.reserve(ne, nc);
+                }
+                replay_buf_attr(&mut b, &p.ops, &mut ids);
+                b.build()
+            }
+        };
+        out.push((idx, ids));
+    }
+    out
+}
+
+fn check_empty_buffer(buf: &PathBuffer, tag: &str, bad: &mut Vec<String>) {
+    let bs = buf.as_slice();
+    let mut it = buf.iter();
+    let mut its = bs.iter();
+    let ok = buf.len() == 0
+        && buf.is_empty()
+        && buf.indices() == (0..0)
+        && bs.len() == 0
+        && bs.is_empty()
+        && bs.indices() == (0..0)
+        && it.size_hint() == (0, Some(0))
+        && it.next().is_none()
+        && it.next_back().is_none()
+        && its.next_back().is_none()
+        && its.next().is_none();
+    if !ok {
+        bad.push(format!("a {} PathBuffer is not empty (len / is_empty / indices / iter)", tag));
+    }
+    let _ = format!("{:?} {:?}", buf, bs);
+}
+
+fn check_filled_buffer(buf: &PathBuffer, progs: &[Prog], built: &[(usize, Vec<u32>)], rng: &mut Rng, tag: &str, bad: &mut Vec<String>) {
+    let k = progs.len();
+    let exp: Vec<Expected> = progs.iter().map(expected_of).collect();
+    let mut say = |m: String| {
+        let s = format!("{}: {}", tag, m);
+        if !bad.contains(&s) {
+            bad.push(s)
+        }
+    };
+    if buf.len() != k || buf.is_empty() != (k == 0) || buf.indices() != (0..k) {
+        say("PathBuffer len / is_empty / indices do not reflect the number of build() calls".to_string());
+    }
+    for (i, (idx, _)) in built.iter().enumerate() {
+        if *idx != i {
+            say(format!("build() number {} returned index {}", i, idx));
+        }
+    }
+    let bs = buf.as_slice();
+    if bs.len() != k || bs.is_empty() != (k == 0) || bs.indices() != (0..k) {
+        say("PathBufferSlice len / is_empty / indices do not reflect the number of build() calls".to_string());
+    }
+    let mut sub = Vec::new();
+    for i in 0..k {
+        entry_check(&buf.get(i), &exp[i], Some(&built[i].1), &format!("entry {} via PathBuffer::get", i), &mut sub);
+        entry_check(&bs.get(i), &exp[i], Some(&built[i].1), &format!("entry {} via PathBufferSlice::get", i), &mut sub);
+    }
+    for s in sub {
+        say(s);
+    }
+    // iteration order = index order, backwards = reversed, for the buffer and its slice
+    let forwards: [Vec<PathSlice>; 2] = [buf.iter().collect(), bs.iter().collect()];
+    let backwards: [Vec<PathSlice>; 2] = [buf.iter().rev().collect(), bs.iter().rev().collect()];
+    for (w, name) in [(0usize, "PathBuffer"), (1, "PathBufferSlice")] {
+        if forwards[w].len() != k || forwards[w].iter().zip(exp.iter()).any(|(s, e)| !same_entry(s, e)) {
+            say(format!("{}::iter does not yield the entries in index order", name));
+        }
+        if backwards[w].len() != k || backwards[w].iter().zip(exp.iter().rev()).any(|(s, e)| !same_entry(s, e)) {
+            say(format!("{}::iter().rev() does not yield the entries in reverse index order", name));
+        }
+    }
+    // both ends at once, with the size known at every step
+    {
+        let mut it = if rng.chance(1, 2) { buf.iter() } else { bs.iter() };
+        let (mut lo, mut hi) = (0usize, k);
+        loop {
+            if it.size_hint() != (hi - lo, Some(hi - lo)) || it.len() != hi - lo {
+                say("path_buffer::Iter: size_hint / len is not the number of entries left".to_string());
+                break;
+            }
+            if lo == hi {
+                if it.next().is_some() || it.next_back().is_some() || it.clone().next().is_some() {
+                    say("path_buffer::Iter yields an entry after the last one".to_string());
+                }
+                break;
+            }
+            if rng.chance(1, 2) {
+                match it.next() {
+                    Some(s) if same_entry(&s, &exp[lo]) => {}
+                    _ => {
+                        say("path_buffer::Iter::next, mixed with next_back, does not yield the next entry from the front".to_string());
+                        break;
+                    }
+                }
+                lo += 1;
+            } else {
+                match it.next_back() {
+                    Some(s) if same_entry(&s, &exp[hi - 1]) => {}
+                    _ => {
+                        say("path_buffer::Iter::next_back, mixed with next, does not yield the next entry from the back".to_string());
+                        break;
+                    }
+                }
+                hi -= 1;
+            }
+        }
+    }
+    let _ = format!("{:?} {:?}", buf, bs);
+    // a clone reads the same
+    {
+        let c = buf.clone();
+        if c.len() != k || (0..k.min(c.len())).any(|i| !same_entry(&c.get(i), &exp[i])) {
+            say("a clone of the PathBuffer does not hold the same entries".to_string());
+        }
+    }
+    // FromIterator<PathSlice>: the collected buffer holds the paths' (position) events, entry by entry
+    {
+        let c: PathBuffer = buf.iter().collect();
+        if c.len() != k || (0..k.min(c.len())).any(|i| c.get(i).iter().collect::<Vec<PathEvent>>() != exp[i].spec_pos) {
+            say("a PathBuffer collected from the entries (FromIterator<PathSlice>) does not yield the same position events entry by entry".to_string());
+        }
+    }
+}
+
+fn progs_text(progs: &[Prog]) -> String {
+    progs.iter().map(|p| format!("<{}>", ops_text(p.n, &p.ops))).collect::<Vec<_>>().join(" ")
+}
+
+/// a buffer created by `ctor`, filled with `fills[0]`, cleared, filled with `fills[1]`, ...
+fn buffer_case(ctor: u64, fills: &[Vec<Prog>], route_seed: u64) -> Vec<String> {
+    let mut bad = Vec::new();
+    let mut rng = Rng::new(route_seed);
+    let mut buf = match ctor {
+        0 => PathBuffer::new(),
+        1 => PathBuffer::default(),
+        _ => PathBuffer::with_capacity(rng.below(40) as usize, rng.below(40) as usize, rng.below(8) as usize),
+    };
+    check_empty_buffer(&buf, "new", &mut bad);
+    for (fi, progs) in fills.iter().enumerate() {
+        if fi > 0 {
+            buf.clear();
+            check_empty_buffer(&buf, "cleared", &mut bad);
+        }
+        let built = fill_buffer(&mut buf, progs, &mut rng, &mut bad);
+        check_filled_buffer(&buf, progs, &built, &mut rng, if fi == 0 { "first fill" } else { "fill after clear()" }, &mut bad);
+    }
+    bad
+}
+
+/// Event::{is_edge, from, to} on the events of every kind of iterator, against the program
+fn accessor_check(ops: &[Op], path: &Path) -> Vec<String> {
+    let mut bad = Vec::new();
+    // (from, to, is_edge) per builder call, from the program alone
+    let mut want: Vec<(Ep, Ep, bool)> = Vec::new();
+    let mut first: Ep = (point(0.0, 0.0), vec![]);
+    let mut cur: Ep = first.clone();
+    for o in ops {
+        match o {
+            Op::Begin(p, a) => {
+                first = (*p, a.clone());
+                cur = first.clone();
+                want.push((cur.clone(), cur.clone(), false));
+            }
+            Op::Line(p, a) | Op::Quad(_, p, a) | Op::Cubic(_, _, p, a) => {
+                let to = (*p, a.clone());
+                want.push((cur.clone(), to.clone(), true));
+                cur = to;
+            }
+            Op::End(close) => want.push((cur.clone(), first.clone(), *close)),
+        }
+    }
+    let pos: Vec<PathEvent> = path.iter().collect();
+    let borrowed: Vec<Event<(Point, Attributes), Point>> = path.iter_with_attributes().collect();
+    let owned: Vec<AEvent> = borrowed.iter().map(|e| own(*e)).collect();
+    let ids: Vec<IdEvent> = path.id_iter().collect();
+    if pos.len() != want.len() || borrowed.len() != want.len() || ids.len() != want.len() {
+        bad.push("the path does not have one event per builder call".to_string());
+        return bad;
+    }
+    let res = |i: EndpointId| -> Ep { (path[i], path.attributes(i).to_vec()) };
+    for (k, (f, t, edge)) in want.iter().enumerate() {
+        let own_pair = |x: (Point, Attributes)| -> Ep { (x.0, x.1.to_vec()) };
+        let ok = pos[k].from() == f.0
+            && pos[k].to() == t.0
+            && pos[k].is_edge() == *edge
+            && own_pair(borrowed[k].from()) == *f
+            && own_pair(borrowed[k].to()) == *t
+            && borrowed[k].is_edge() == *edge
+            && owned[k].from() == *f
+            && owned[k].to() == *t
+            && owned[k].is_edge() == *edge
+            && res(ids[k].from()) == *f
+            && res(ids[k].to()) == *t
+            && ids[k].is_edge() == *edge;
+        if !ok {
+            bad.push(format!("Event::from / to / is_edge of event {} is not the start point / end point / edge flag the program gives", k));
+            break;
+        }
+        // each edge starts where the previous event ended
+        if k > 0 && !matches!(ops[k], Op::Begin(..)) && (pos[k].from() != pos[k - 1].to() || ids[k].from() != ids[k - 1].to()) {
+            bad.push(format!("event {} does not start (from()) where the previous one ended (to())", k));
+            break;
+        }
+    }
+    bad
+}
+
+/// the program as a command buffer over external storage (stored in a shuffled order), read as position events
+fn commands_points_check(ops: &[Op], rng: &mut Rng) -> Vec<String> {
+    use lyon_path::commands::{PathCommandsBuilder, PathCommandsSlice};
+    let mut bad = Vec::new();
+    let spec_pos: Vec<PathEvent> = spec_events(ops).iter().map(strip).collect();
+    let (ne, nc) = point_counts(ops);
+    let shuffle = |n: usize, rng: &mut Rng| -> Vec<u32> {
+        let mut v: Vec<u32> = (0..n as u32).collect();
+        for i in (1..n).rev() {
+            let j = rng.below(i as u64 + 1) as usize;
+            v.swap(i, j);
+        }
+        v
+    };
+    let (pe, pc) = (shuffle(ne, rng), shuffle(nc, rng));
+    let mut endpoints = vec![point(-999.0, -999.0); ne];
+    let mut ctrls = vec![point(-998.0, -998.0); nc];
+    let mut b = PathCommandsBuilder::with_capacity(rng.below(64) as usize);
+    let (mut ie, mut ic) = (0usize, 0usize);
+    for o in ops {
+        match o {
+            Op::Begin(p, _) => {
+                endpoints[pe[ie] as usize] = *p;
+                b.begin(EndpointId(pe[ie]));
+                ie += 1;
+            }
+            Op::Line(p, _) => {
+                endpoints[pe[ie] as usize] = *p;
+                b.line_to(EndpointId(pe[ie]));
+                ie += 1;
+            }
+            Op::Quad(c, p, _) => {
+                ctrls[pc[ic] as usize] = *c;
+                endpoints[pe[ie] as usize] = *p;
+                b.quadratic_bezier_to(ControlPointId(pc[ic]), EndpointId(pe[ie]));
+                ic += 1;
+                ie += 1;
+            }
+            Op::Cubic(c1, c2, p, _) => {
+                ctrls[pc[ic] as usize] = *c1;
+                ctrls[pc[ic + 1] as usize] = *c2;
+                endpoints[pe[ie] as usize] = *p;
+                b.cubic_bezier_to(ControlPointId(pc[ic]), ControlPointId(pc[ic + 1]), EndpointId(pe[ie]));
+                ic += 2;
+                ie += 1;
+            }
+            Op::End(c) => {
+                b.end(*c);
+            }
+        }
+    }
+    let _ = format!("{:?}", b);
+    let cmds = b.build();
+    if cmds.events(&endpoints, &ctrls).points().collect::<Vec<PathEvent>>() != spec_pos {
+        bad.push("PathCommands::events(..).points() differs from the program's events".to_string());
+    }
+    // other storage types with a position
+    let ep_pairs: Vec<(f32, f32)> = endpoints.iter().map(|p| (p.x, p.y)).collect();
+    let cp_arrays: Vec<[f32; 2]> = ctrls.iter().map(|p| [p.x, p.y]).collect();
+    let ep_tagged: Vec<(Point, usize)> = endpoints.iter().enumerate().map(|(i, p)| (*p, i)).collect();
+    if cmds.events(&ep_pairs, &cp_arrays).points().collect::<Vec<PathEvent>>() != spec_pos
+        || cmds.events(&ep_tagged, &ctrls).points().collect::<Vec<PathEvent>>() != spec_pos
+    {
+        bad.push("PathCommands::events(..).points() over (f32, f32) / [f32; 2] / (Point, T) storage differs from the program's events".to_string());
+    }
+    if cmds.events(&ep_pairs, &cp_arrays).map(|e| e.with_points()).collect::<Vec<PathEvent>>() != spec_pos {
+        bad.push("PathCommands::events(..) mapped through Event::with_points differs from the program's events".to_string());
+    }
+    if cmds.path_slice(&endpoints, &ctrls).events().points().collect::<Vec<PathEvent>>() != spec_pos {
+        bad.push("CommandsPathSlice::events().points() differs from the program's events".to_string());
+    }
+    // converting to positions in the middle of the iteration continues with the remaining events
+    for j in [1usize, 2, spec_pos.len() / 2, spec_pos.len().saturating_sub(1)] {
+        if j <= spec_pos.len() {
+            let mut it = cmds.events(&endpoints, &ctrls);
+            for _ in 0..j {
+                it.next();
+            }
+            if it.points().collect::<Vec<PathEvent>>() != spec_pos[j..] {
+                bad.push("PathCommands::events(..) advanced then .points() does not continue with the remaining events".to_string());
+                break;
+            }
+        }
+    }
+    // id events: for loop over &PathCommands, the slice made by From, resolved through the position stores
+    let mut by_for: Vec<IdEvent> = Vec::new();
+    for e in &cmds {
+        by_for.push(e);
+    }
+    let sl = PathCommandsSlice::from(&cmds);
+    if by_for != cmds.iter().collect::<Vec<IdEvent>>() || by_for != sl.iter().collect::<Vec<IdEvent>>() {
+        bad.push("a for loop over &PathCommands / PathCommandsSlice::from(&cmds).iter() differs from PathCommands::iter".to_string());
+    }
+    if !well_formed(&by_for) {
+        bad.push("the id events of the command buffer are not a well-formed sequence".to_string());
+    }
+    let store: (&[Point], &[Point]) = (&endpoints[..], &ctrls[..]);
+    let ps = cmds.path_slice(&ep_tagged, &cp_arrays);
+    let noattr = |p: Point| -> Ep { (p, vec![]) };
+    let via_pair: Vec<PathEvent> = by_for.iter().map(|e| strip(&resolve_with(e, &|i| noattr(store.get_endpoint(i)), &|c| store.get_control_point(c)))).collect();
+    let via_ps: Vec<PathEvent> = by_for.iter().map(|e| strip(&resolve_with(e, &|i| noattr(ps.get_endpoint(i)), &|c| ps.get_control_point(c)))).collect();
+    if via_pair != spec_pos {
+        bad.push("command-buffer id events resolved through the (endpoints, control points) PositionStore differ from the program's events".to_string());
+    }
+    if via_ps != spec_pos {
+        bad.push("command-buffer id events resolved through the CommandsPathSlice PositionStore differ from the program's events".to_string());
+    }
+    let _ = format!("{:?} {:?} {:?} {:?}", cmds, sl, ps, cmds.path_slice(&endpoints, &ctrls));
+    bad
+}
+
+/// everything that is checked per program: the slice of the stand-alone Path, IntoIterator for &Path, the event accessors,
+/// the command buffer read as positions, Path::with_attributes
+fn program_checks(n: usize, ops: &[Op], rng: &mut Rng) -> Vec<String> {
+    let mut bad = Vec::new();
+    let prog = Prog { n, ops: ops.to_vec() };
+    let exp = expected_of(&prog);
+    let mut ids = Vec::new();
+    let path = build_path(n, ops, &mut ids);
+    entry_check(&path.as_slice(), &exp, Some(&ids), "Path::as_slice", &mut bad);
+    entry_check(&PathSlice::from(&path), &exp, Some(&ids), "PathSlice::from(&Path)", &mut bad);
+    let mut by_for = Vec::new();
+    for e in &path {
+        by_for.push(e);
+    }
+    if by_for != exp.spec_pos {
+        bad.push("a for loop over &Path (IntoIterator) differs from the program's events".to_string());
+    }
+    bad.extend(accessor_check(ops, &path));
+    bad.extend(commands_points_check(ops, rng));
+    // the empty path with n attributes
+    {
+        let e = Path::with_attributes(n);
+        let none = e.iter().next().is_none()
+            && e.id_iter().next().is_none()
+            && e.iter_with_attributes().next().is_none()
+            && e.reversed().next().is_none()
+            && e.as_slice().is_empty()
+            && e.first_endpoint().is_none()
+            && e.last_endpoint().is_none();
+        if !none || AttributeStore::num_attributes(&e) != n || AttributeStore::num_attributes(&e.as_slice()) != n {
+            bad.push("Path::with_attributes(n) is not an empty path with n attributes".to_string());
+        }
+        // it can be concatenated with paths of the same attribute count
+        let mut b = Path::builder_with_attributes(n);
+        b.extend_from_paths(&[e.as_slice(), path.as_slice(), e.as_slice()]);
+        if b.build().iter_with_attributes().map(own).collect::<Vec<AEvent>>() != exp.spec {
+            bad.push("extend_from_paths with Path::with_attributes(n) around the path changes the events".to_string());
+        }
+    }
+    bad
+}
+
+/// BuilderImpl::extend_from_paths: builder calls, then whole paths, then builder calls again = all the programs one after the other
+fn extend_impl_check(progs: &[Vec<Op>], rng: &mut Rng) -> Vec<String> {
+    use lyon_path::path::BuilderImpl;
+    use lyon_path::traits::Build;
+    let mut bad = Vec::new();
+    let paths: Vec<Path> = progs.iter().map(|o| build_path_noattr(o)).collect();
+    let k = progs.len();
+    let cut1 = rng.below(k as u64 + 1) as usize;
+    let cut2 = cut1 + rng.below((k - cut1) as u64 + 1) as usize;
+    let mut b = match rng.below(3) {
+        0 => Path::builder().into_inner(),
+        1 => BuilderImpl::new(),
+        _ => BuilderImpl::with_capacity(rng.below(50) as usize, rng.below(50) as usize),
+    };
+    let mut ids = Vec::new();
+    for p in &progs[..cut1] {
+        replay_trait(&mut b, p, &mut ids);
+    }
+    let slices: Vec<PathSlice> = paths[cut1..cut2].iter().map(|p| p.as_slice()).collect();
+    b.extend_from_paths(&slices);
+    for p in &progs[cut2..] {
+        replay_trait(&mut b, p, &mut ids);
+    }
+    let joined: Path = Build::build(b);
+    let all: Vec<Op> = progs.iter().flat_map(|p| p.iter().cloned()).collect();
+    let want: Vec<PathEvent> = spec_events(&all).iter().map(strip).collect();
+    if joined.iter().collect::<Vec<PathEvent>>() != want {
+        bad.push(format!("BuilderImpl: programs [..{}] by builder calls, [{}..{}] by extend_from_paths, [{}..] by builder calls do not yield the programs' events one after the other", cut1, cut1, cut2, cut2));
+    }
+    if !well_formed(&joined.id_iter().collect::<Vec<IdEvent>>()) {
+        bad.push("BuilderImpl::extend_from_paths: the id events of the result are not a well-formed sequence".to_string());
+    }
+    bad
+}
+
+fn fail_all(st: &mut Stats, bad: Vec<String>, label: &str) {
+    for b in bad {
+        st.fail(jobj(&[("what", jstr(&b)), ("input", jstr(label))]));
+    }
+}
+
+fn random_prog(rng: &mut Rng, n: usize, index: usize) -> Prog {
+    let kinds = if rng.chance(1, 10) {
+        Vec::new()
+    } else {
+        let max_ops = if rng.chance(1, 8) { 60 } else { 10 };
+        random_kinds(rng, max_ops)
+    };
+    let mut ops = if rng.chance(1, 2) {
+        instantiate(&kinds, n, None)
+    } else {
+        let mut r2 = Rng::new(rng.next_u64());
+        instantiate(&kinds, n, Some(&mut r2))
+    };
+    shift_prog(&mut ops, 10000.0 * index as f32, 100000.0 * index as f32);
+    Prog { n, ops }
+}
+
+fn additional_checks(args: &Args, st: &mut Stats) {
+    let mut rng = Rng::new(args.seed ^ 0xC14_0ADD);
+    // ---- 1. path buffers
+    // small exhaustive: every well-nested program of up to 5 calls (this includes the empty path, single-point sub-paths and
+    // sub-paths of only curves), stored four times with 0, 1, 2, 3 attributes, then cleared and stored in the other order
+    let mut all = Vec::new();
+    for len in 0..=5 {
+        enum_kinds(len, &mut all);
+    }
+    let mut cases: Vec<(u64, Vec<Vec<Prog>>, &str)> = Vec::new();
+    for (ci, kinds) in all.iter().enumerate() {
+        let mk = |order: &[usize]| -> Vec<Prog> {
+            order
+                .iter()
+                .enumerate()
+                .map(|(i, n)| {
+                    let mut ops = instantiate(kinds, *n, None);
+                    shift_prog(&mut ops, 10000.0 * i as f32, 100000.0 * i as f32);
+                    Prog { n: *n, ops }
+                })
+                .collect()
+        };
+        cases.push(((ci % 3) as u64, vec![mk(&[0, 1, 2, 3]), mk(&[3, 2, 1, 0])], "exhaustive"));
+    }
+    let n_random = if args.thorough() { 3000 } else { 300 };
+    for _ in 0..n_random {
+        let mut fills = Vec::new();
+        for _ in 0..2 {
+            let k = if rng.chance(1, 20) { 0 } else { 1 + rng.below(6) as usize };
+            fills.push((0..k).map(|i| { let n = rng.below(4) as usize; random_prog(&mut rng, n, i) }).collect::<Vec<Prog>>());
+        }
+        cases.push((rng.below(3), fills, "random"));
+    }
+    for (ctor, fills, origin) in &cases {
+        let route_seed = rng.next_u64();
+        let label = format!("path buffer (constructor {}, builder routes from seed {}): first fill {} ; after clear() {}", ctor, route_seed, progs_text(&fills[0]), progs_text(&fills[1]));
+        st.inc("buffer_cases");
+        st.inc(&format!("buffer_cases_{}", origin));
+        st.add("buffer_entries", fills.iter().map(|f| f.len() as u64).sum());
+        let distinct_n: std::collections::BTreeSet<usize> = fills[0].iter().map(|p| p.n).collect();
+        if distinct_n.len() >= 2 {
+            st.inc("buffer_cases_mixed_attribute_counts");
+        }
+        st.note_case(&label, fills.iter().any(|f| f.len() >= 2));
+        match catch(AssertUnwindSafe(|| buffer_case(*ctor, fills, route_seed))) {
+            None => st.fail(jobj(&[("what", jstr("building / reading a PathBuffer panicked")), ("input", jstr(&label))])),
+            Some(bad) => fail_all(st, bad, &label),
+        }
+    }
+    // ---- per program: slice views, IntoIterator, Event accessors, command buffer read as positions, Path::with_attributes;
+    //      BuilderImpl::extend_from_paths on groups of attribute-less programs
+    {
+        let mut progs: Vec<Prog> = Vec::new();
+        for kinds in &all {
+            for n in 0..4usize {
+                progs.push(Prog { n, ops: instantiate(kinds, n, None) });
+            }
+        }
+        for _ in 0..n_random {
+            let n = rng.below(6) as usize;
+            progs.push(random_prog(&mut rng, n, 0));
+        }
+        for p in &progs {
+            let label = ops_text(p.n, &p.ops);
+            st.inc("program_view_cases");
+            st.note_case(&format!("views {}", label), p.ops.len() >= 3);
+            let sub = rng.next_u64();
+            match catch(AssertUnwindSafe(|| program_checks(p.n, &p.ops, &mut Rng::new(sub)))) {
+                None => st.fail(jobj(&[("what", jstr("reading the path through its slice / event accessors / command buffer panicked")), ("input", jstr(&label))])),
+                Some(bad) => fail_all(st, bad, &label),
+            }
+        }
+        for _ in 0..n_random {
+            let k = 1 + rng.below(5) as usize;
+            let group: Vec<Vec<Op>> = (0..k).map(|i| random_prog(&mut rng, 0, i).ops).collect();
+            let label = format!("extend_from_paths {}", group.iter().map(|o| format!("<{}>", ops_text(0, o))).collect::<Vec<_>>().join(" "));
+            st.inc("builder_impl_extend_cases");
+            st.note_case(&label, k >= 2);
+            let sub = rng.next_u64();
+            match catch(AssertUnwindSafe(|| extend_impl_check(&group, &mut Rng::new(sub)))) {
+                None => st.fail(jobj(&[("what", jstr("BuilderImpl::extend_from_paths panicked")), ("input", jstr(&label))])),
+                Some(bad) => fail_all(st, bad, &label),
+            }
+        }
+    }
+    // ---- a builder that is dropped without build() must leave the entries already stored readable
+    {
+        let kinds = [K::Begin, K::Line, K::Cubic, K::End];
+        for n in [0usize, 2] {
+            let prog = Prog { n, ops: instantiate(&kinds, n, None) };
+            let label = format!("buffer holding <{}>, then a builder (begin, line_to) dropped without build(), then one more path built", ops_text(n, &prog.ops));
+            st.inc("buffer_abandoned_builder_cases");
+            st.note_case(&label, true);
+            let got = catch(AssertUnwindSafe(|| {
+                let mut bad = Vec::new();
+                let mut buf = PathBuffer::new();
+                let built = fill_buffer(&mut buf, std::slice::from_ref(&prog), &mut Rng::new(3), &mut bad);
+                {
+                    let mut b = buf.builder();
+                    b.begin(point(-1.0, -2.0));
+                    b.line_to(point(-3.0, -4.0));
+                }
+                let exp = expected_of(&prog);
+                match catch(AssertUnwindSafe(|| {
+                    let mut sub = Vec::new();
+                    entry_check(&buf.get(0), &exp, Some(&built[0].1), "entry 0 after an abandoned builder", &mut sub);
+                    sub
+                })) {
+                    None => bad.push("entry 0 can no longer be read (panic) after a path_buffer::Builder was dropped without build()".to_string()),
+                    Some(sub) => bad.extend(sub),
+                }
+                // ... and stay what they were when the buffer is used again
+                let mut second = Prog { n, ops: instantiate(&[K::Begin, K::Quad, K::Line, K::Line, K::Close], n, None) };
+                shift_prog(&mut second.ops, 10000.0, 100000.0);
+                let built2 = fill_buffer(&mut buf, std::slice::from_ref(&second), &mut Rng::new(4), &mut bad);
+                let exp2 = expected_of(&second);
+                match catch(AssertUnwindSafe(|| buf.get(0).iter().collect::<Vec<PathEvent>>())) {
+                    None => bad.push("entry 0 can no longer be read (panic) after a path_buffer::Builder was dropped without build() and one more path was built".to_string()),
+                    Some(v) => {
+                        if v != exp.spec_pos {
+                            bad.push(format!(
+                                "after a path_buffer::Builder was dropped without build() and one more path was built, entry 0 no longer yields its program's events but {}{:?}",
+                                if well_formed(&v) { "" } else { "the ill-formed sequence " },
+                                v
+                            ));
+                        }
+                    }
+                }
+                match catch(AssertUnwindSafe(|| {
+                    let mut sub = Vec::new();
+                    entry_check(&buf.get(built2[0].0), &exp2, Some(&built2[0].1), "the path built after an abandoned builder", &mut sub);
+                    sub
+                })) {
+                    None => bad.push("reading the path built after an abandoned builder panicked".to_string()),
+                    Some(sub) => bad.extend(sub),
+                }
+                bad
+            }));
+            // known finding K19: path_buffer::Builder::new swaps the buffer's storage into the builder and only build()
+            // swaps it back; there is no Drop
+            match got {
+                None => st.fail(jobj(&[("what", jstr("filling a PathBuffer / abandoning a builder panicked")), ("input", jstr(&label)), ("class", jstr("K19"))])),
+                Some(bad) => {
+                    for b in bad {
+                        st.fail(jobj(&[("what", jstr(&b)), ("input", jstr(&label)), ("class", jstr("K19"))]));
+                    }
+                }
+            }
+        }
+    }
+    // ---- 2. IdPolygon, and a Polygon as the position store its ids are resolved through
+    {
+        let mut lists: Vec<Vec<u32>> = vec![vec![]];
+        for len in 1..=4usize {
+            for code in 0..3usize.pow(len as u32) {
+                let mut c = code;
+                lists.push((0..len).map(|_| { let v = (c % 3) as u32 * 5 + 1; c /= 3; v }).collect());
+            }
+        }
+        for _ in 0..n_random {
+            let len = 1 + rng.below(6) as usize;
+            lists.push((0..len).map(|_| rng.below(16) as u32).collect());
+        }
+        let store_pts: Vec<Point> = (0..16).map(|i| point(i as f32 * 3.0 + 1.0, 100.0 - i as f32)).collect();
+        for l in &lists {
+            for closed in [false, true] {
+                let label = format!("IdPolygon {:?} closed {}", l, closed);
+                st.inc("id_polygon_cases");
+                st.note_case(&label, l.len() >= 2);
+                let got = catch(AssertUnwindSafe(|| {
+                    let mut bad = Vec::new();
+                    let ids: Vec<EndpointId> = l.iter().map(|i| EndpointId(*i)).collect();
+                    let mut want: Vec<IdEvent> = Vec::new();
+                    for (k, id) in ids.iter().enumerate() {
+                        want.push(if k == 0 { Event::Begin { at: *id } } else { Event::Line { from: ids[k - 1], to: *id } });
+                    }
+                    if let (Some(f), Some(la)) = (ids.first(), ids.last()) {
+                        want.push(Event::End { last: *la, first: *f, close: closed });
+                    }
+                    let pg = lyon_path::IdPolygon { points: &ids[..], closed };
+                    let got: Vec<IdEvent> = pg.iter().collect();
+                    if got != want {
+                        bad.push("IdPolygon::iter is not Begin, a Line per consecutive pair, End{close} over the ids in order".to_string());
+                    }
+                    if !well_formed(&got) {
+                        bad.push("IdPolygon::iter is not a well-formed sequence".to_string());
+                    }
+                    let mut it = pg.iter();
+                    for _ in 0..want.len() {
+                        it.next();
+                    }
+                    if it.next().is_some() || it.next().is_some() || it.clone().next().is_some() {
+                        bad.push("IdPolygonIter yields an event after End".to_string());
+                    }
+                    for (k, w) in want.iter().enumerate() {
+                        if pg.event(EventId(k as u32)) != *w {
+                            bad.push(format!("IdPolygon::event(EventId({})) is not event {} of the iteration", k, k));
+                            break;
+                        }
+                    }
+                    // resolved through a polygon used as the position store
+                    let store = lyon_path::Polygon { points: &store_pts[..], closed: false };
+                    let tagged: Vec<(Point, u8)> = store_pts.iter().map(|p| (*p, 7u8)).collect();
+                    let store2 = lyon_path::Polygon { points: &tagged[..], closed: true };
+                    let noattr = |p: Point| -> Ep { (p, vec![]) };
+                    let nocp = |_: ControlPointId| -> Point { unreachable!() };
+                    let r1: Vec<PathEvent> = got.iter().map(|e| strip(&resolve_with(e, &|i| noattr(store.get_endpoint(i)), &nocp))).collect();
+                    let r2: Vec<PathEvent> = got.iter().map(|e| strip(&resolve_with(e, &|i| noattr(store2.get_endpoint(i)), &nocp))).collect();
+                    let want_pos: Vec<PathEvent> = want.iter().map(|e| strip(&resolve_with(e, &|i| noattr(store_pts[i.0 as usize]), &nocp))).collect();
+                    if r1 != want_pos || r2 != want_pos {
+                        bad.push("IdPolygon events resolved through PositionStore for Polygon (get_endpoint) differ from the stored points".to_string());
+                    }
+                    bad
+                }));
+                match got {
+                    None => st.fail(jobj(&[("what", jstr("an IdPolygon view panicked")), ("input", jstr(&label))])),
+                    Some(bad) => fail_all(st, bad, &label),
+                }
+            }
+        }
+    }
+    // ---- 4. FromPolyline
+    {
+        use lyon_path::iterator::FromPolyline;
+        let lattice = [point(0.0, 0.0), point(1.0, 0.0), point(2.0, 3.0)];
+        let mut lists: Vec<Vec<Point>> = vec![vec![]];
+        for len in 1..=4usize {
+            for code in 0..3usize.pow(len as u32) {
+                let mut c = code;
+                lists.push((0..len).map(|_| { let p = lattice[c % 3]; c /= 3; p }).collect());
+            }
+        }
+        for _ in 0..n_random {
+            let len = 1 + rng.below(12) as usize;
+            lists.push((0..len).map(|_| point(rng.range(-9, 9) as f32, rng.range(-9, 9) as f32)).collect());
+        }
+        for pts in &lists {
+            for variant in 0..4usize {
+                let close = variant % 2 == 1;
+                let name = ["FromPolyline::new(false, ..)", "FromPolyline::new(true, ..)", "FromPolyline::open", "FromPolyline::closed"][variant];
+                let label = format!("{} over {:?}", name, pts.iter().map(|p| (p.x, p.y)).collect::<Vec<_>>());
+                st.inc("from_polyline_cases");
+                st.note_case(&label, pts.len() >= 2);
+                let got: Option<Vec<PathEvent>> = catch(AssertUnwindSafe(|| {
+                    let it = pts.iter().cloned();
+                    let limit = pts.len() + 5;
+                    match variant {
+                        0 | 1 => FromPolyline::new(close, it).take(limit).collect(),
+                        2 => FromPolyline::open(it).take(limit).collect(),
+                        _ => FromPolyline::closed(it).take(limit).collect(),
+                    }
+                }));
+                let mut want: Vec<PathEvent> = Vec::new();
+                for (k, p) in pts.iter().enumerate() {
+                    want.push(if k == 0 { Event::Begin { at: *p } } else { Event::Line { from: pts[k - 1], to: *p } });
+                }
+                if let (Some(f), Some(la)) = (pts.first(), pts.last()) {
+                    want.push(Event::End { last: *la, first: *f, close });
+                }
+                match got {
+                    None => st.fail(jobj(&[("what", jstr("FromPolyline panicked")), ("input", jstr(&label))])),
+                    Some(evs) => {
+                        if !well_formed(&evs) {
+                            st.fail(jobj(&[
+                                ("what", jstr(&format!("the events of FromPolyline are not a well-formed sequence (each sub-path Begin, edges, End): got {:?}", evs))),
+                                ("input", jstr(&label)),
+                            ]));
+                        } else if evs != want {
+                            st.fail(jobj(&[("what", jstr("the events of FromPolyline are not Begin(first), a Line per consecutive pair, End{last, first, close}")), ("input", jstr(&label))]));
+                        }
+                    }
+                }
+            }
+        }
+    }
+}
+
 pub fn main(args: &Args) -> std::io::Result<()> {
     let mut st = Stats::default();
     let mut w = ShardWriter::new(&args.out, "c14_cases", args.shards, HEADER, "bad_cases");
@@ -1079,5 +2128,6 @@ pub fn main(args: &Args) -> std::io::Result<()> {
         }
         pw.finish()?;
     }
+    additional_checks(args, &mut st);
     st.write(&args.out.join("c14_stats.json"))
 }
